@@ -9,7 +9,7 @@
 From Coq Require Import List NArith Bool Lia ZifyN ZifyNat.
 From Tink Require Import Bytes AeadFrame AeadFrameProofs Ctr CtrProofs EtM EtMProofs
   Polyval PolyvalProofs PolyvalBytesProofs GcmSiv GcmSivProofs Cmac Xaes XaesProofs Envelope EnvelopeProofs
-  GcmSivSpec GcmSivSpecProofs EnvelopeDek EnvelopeProofs2.
+  GcmSivSpec GcmSivSpecProofs EnvelopeDek EnvelopeProofs2 EnvelopeDekEtm EnvelopeDekEtmProofs.
 Import ListNotations.
 Open Scope N_scope.
 
@@ -466,6 +466,56 @@ Theorem C01_envelope_wire_format :
       c = be_bytes 4 (lenN encDEK) ++ encDEK ++ payload.
 Proof. exact env_wire_format_closed. Qed.
 Print Assumptions C01_envelope_wire_format.
+
+(* KMS envelope over an AES-CTR-HMAC data key (model/EnvelopeDekEtm.v: the nested key proto
+   newDEK serialises, parsed back and validated by registry.Primitive; AES and the HMACs of the five
+   hash types are quantified functions, their output lengths the only hypotheses): for the fresh key of
+   ANY valid template (IV 12..16, tag 10..digest size) the envelope built around it decrypts to the
+   plaintext, and it is be32(|encDEK|) || encDEK || payload with a payload of exactly
+   IV size + |p| + tag size bytes - as short as 22 bytes: no minimum payload length other than that
+   may be imposed by Decrypt *)
+Theorem C01_envelope_ctrhmac_dek_round_trip :
+  forall (aes : bytes -> bytes -> bytes) (hmacs : N -> bytes -> bytes -> bytes),
+    (forall k b, length (aes k b) = 16%nat) ->
+    (forall h hl, hash_len h = Some hl -> forall k m, length (hmacs h k m) = hl) ->
+    forall kek_enc kek_dec kivlen, kek_rt kek_enc kek_dec kivlen ->
+    forall h hl k kekiv dekiv p ad c,
+      hash_len h = Some hl -> etm_valid hl k = true -> (length (ek_hmac k) <= 100)%nat ->
+      length kekiv = kivlen -> length dekiv = ek_iv k ->
+      env_enc kek_enc (etm_dek_enc aes hmacs (ek_iv k)) (etm_dek_proto h k) kekiv dekiv p ad = Ok c ->
+      env_dec kek_dec (etm_dek_dec aes hmacs (ek_iv k)) c ad = Ok p /\
+      exists encDEK payload, kek_enc kekiv (etm_dek_proto h k) [] = Ok encDEK /\
+        c = be_bytes 4 (lenN encDEK) ++ encDEK ++ payload /\
+        length payload = (ek_iv k + length p + ek_tag k)%nat.
+Proof.
+  intros aes hmacs HA HH ke kd kl HK h hl k kekiv dekiv p ad c Hh Hv Hm H1 H2 He.
+  exact (env_round_trip_etm_fresh aes hmacs HA HH ke kd kl h hl k kekiv dekiv p ad c Hh Hv Hm HK H1 H2 He).
+Qed.
+Print Assumptions C01_envelope_ctrhmac_dek_round_trip.
+
+(* ... and for whatever serialised data key the key-encryption AEAD hands back *)
+Theorem C01_envelope_ctrhmac_dek_round_trip_any_dek :
+  forall (aes : bytes -> bytes -> bytes) (hmacs : N -> bytes -> bytes -> bytes),
+    (forall k b, length (aes k b) = 16%nat) ->
+    (forall h hl, hash_len h = Some hl -> forall k m, length (hmacs h k m) = hl) ->
+    forall kek_enc kek_dec kivlen, kek_rt kek_enc kek_dec kivlen ->
+    forall ivsz dek kekiv dekiv p ad c,
+      length kekiv = kivlen -> length dekiv = ivsz ->
+      env_enc kek_enc (etm_dek_enc aes hmacs ivsz) dek kekiv dekiv p ad = Ok c ->
+      env_dec kek_dec (etm_dek_dec aes hmacs ivsz) c ad = Ok p.
+Proof.
+  intros aes hmacs HA HH ke kd kl HK ivsz dek kekiv dekiv p ad c H1 H2 He.
+  exact (env_round_trip_etm aes hmacs HA HH ke kd kl ivsz dek kekiv dekiv p ad c HK H1 H2 He).
+Qed.
+Print Assumptions C01_envelope_ctrhmac_dek_round_trip_any_dek.
+
+(* non-vacuity: AES-128-CTR-HMAC-SHA256 with IV 12 and tag 10 is a valid template whose fresh key
+   serialises to a data key that parses back *)
+Theorem C01_envelope_ctrhmac_dek_small_template_is_valid :
+  hash_len 3 = Some 32%nat /\ etm_valid 32 etm_small_key = true /\
+  etm_dek_parse 12 (etm_dek_proto 3 etm_small_key) = Some (3, etm_small_key).
+Proof. exact etm_small_valid. Qed.
+Print Assumptions C01_envelope_ctrhmac_dek_small_template_is_valid.
 
 (* the law asked of the key-encryption AEAD is met by Tink's own AEADs (here AES-GCM with
    any prefix), so the envelope over a local KEK is closed entirely *)
